@@ -427,4 +427,11 @@ def run(rep):
             if rx.search(n["p"]) and seen_rw[i] is not None and g.nodes[seen_rw[i]]["l"]:
                 obs.append({"rule": "D4", "site": "%s->%s" % (g.nodes[seen_rw[i]]["p"], n["p"]), "what": what})
     d5(rep, R, seen)
+    # rendering is a fixpoint only if what the renderer leaves implicit is what the reader assumes (sort direction, CTE names, float literals): shared with C08
+    from . import c08 as _c08
+    from .core import Src as _Src
+
+    _src = _Src(facts.src_facts())
+    _c08.e19(rep, _src)
+    _c08.e14(rep, _src)
     rep.extra["observations_rewrite_scope"] = obs[:60]
